@@ -3,13 +3,14 @@ from vlib import core
 from checks import mergegen as g
 from checks import mergelib as m
 from checks import mergemech
+from checks import richmerge
 
 META = {
     "harness_bins": ["nkeval"],
     "extract": "C05.v",
     "model_dir": "c05",
     "technique": "Coq proof that the denotation of a record literal is invariant under permutation of its fields and that of a merge under swapping operands (so export and field listings, functions of the denotation, cannot depend on written order); tie: the interpreter's JSON/YAML/TOML bytes and std.record.{fields,values,to_array} for original vs permuted programs, across two processes",
-    "level_text": "coq/Props/C15.v: for every record literal with distinct field names and every permutation of its fields the elaboration is the same tree (C15_literal_order_irrelevant), and merge is commutative on all well-formed trees (C15_operand_order_irrelevant); in the algebra records are key-sorted so there is no insertion order to leak. Tie to the code: each generated program is evaluated by the interpreter as written, with every literal's fields permuted, and with the operands of every merge swapped; the serializer's JSON, YAML and TOML text and the results of std.record.fields / values / to_array are compared byte for byte (direct oracle), the batch is run in two separate processes (different hash seeds), and the exported tree is compared with the extracted algebra. PARTIAL: cross-process determinism is observed, not proved (a pure model is deterministic by construction). " + mergemech.MECH_TEXT_C15,
+    "level_text": "coq/Props/C15.v: for every record literal with distinct field names and every permutation of its fields the elaboration is the same tree (C15_literal_order_irrelevant), and merge is commutative on all well-formed trees (C15_operand_order_irrelevant); in the algebra records are key-sorted so there is no insertion order to leak. Tie to the code: each generated program is evaluated by the interpreter as written, with every literal's fields permuted, and with the operands of every merge swapped; the serializer's JSON, YAML and TOML text and the results of std.record.fields / values / to_array are compared byte for byte (direct oracle), the batch is run in two separate processes (different hash seeds), and the exported tree is compared with the extracted algebra. PARTIAL: cross-process determinism is observed, not proved (a pure model is deterministic by construction); records with recursive fields are outside the algebra: for them (checks/richmerge.py: sibling references under binders reusing the field names, nested and piecewise definitions, declared-only fields, overriding) the interpreter's JSON / YAML / TOML bytes and field listings are compared between the program as written, with the fields of every literal (pieces of piecewise definitions included) permuted, and with merge operands swapped (direct oracle only). " + mergemech.MECH_TEXT_C15,
     "level_note": "Trusted: Coq kernel; extraction; nkeval; generator. IndexMap insertion order / swap_remove / split_ref inside merge.rs are modelled in coq/MergeMech/Model.v (a reading of the code, tied by comparing the model's map order with the interpreter's); the hash function of IndexMap and serde's emitters are not modelled (covered by the byte-level comparison on the implementation).",
 }
 
@@ -252,6 +253,7 @@ def run(ck):
     ck.coverage["partial"] = "determinism across processes is observed not proved"
     ck.trusted += ["extraction: ExtrOcamlBasic only", "harness bin nkeval"]
     run_dict_stream(ck, rng, nk)
+    richmerge.run_order(ck, nk)   # recursive records: written order of fields / pieces / operands, interpreter only
     mergemech.run(ck, "C15")      # mechanism level: Props.C15_mech + map-order tie (checks/mergemech.py)
 
 
@@ -262,6 +264,8 @@ def replay(ck, path):
         return mergemech.replay(ck, obj)
     if not ck.harness(["nkeval"]):
         return
+    if obj.get("rich"):
+        return richmerge.replay(ck, obj)
     if obj.get("dict"):
         nk = core.harness_bin("nkeval")
         for key, flag in (("listing", "full,order"), ("ser", "full,order"), ("export", "fmt=json"), ("export", "fmt=yaml"), ("export", "fmt=toml")):
